@@ -101,6 +101,9 @@ def gen_trajectory(rng):
     ncl, nde = pick(), pick()
     if rng.random() < 0.7 and ncl + nde > n:             # mostly consistent phase splits, some overlapping
         nde = n - ncl
+    if rng.random() < 0.04:                              # counts outside [0, n]: Python slice semantics apply
+        ncl, nde = rng.choice([(ncl, n + rng.randint(1, n + 2)), (n + rng.randint(1, 5), nde), (-rng.randint(1, n + 1), nde),
+                               (ncl, -rng.randint(1, 4))])
     return {'fuel_mass': fm, 'altitude': alt, 'tas': tas, 'fuel_flow': ff, 'n_climb': ncl, 'n_descent': nde}
 
 
@@ -127,7 +130,11 @@ def shape_trajectories():
             ('two-points-full-window', mk(2, 0, 0)), ('single-point', mk(1, 0, 0)),
             ('single-point-empty-window', mk(1, 0, 1)), ('plateau-in-window-8', mk(8, 2, 2, plateau=(3, 4))),
             ('all-zero-burn-5', mk(5, 1, 1, flat=True)), ('empty-window-40', mk(40, 20, 20)),
-            ('one-point-window-40', mk(40, 19, 20))]
+            ('one-point-window-40', mk(40, 19, 20)),
+            # phase counts no builder produces but the attribute API / stored files can carry: Python slice semantics
+            ('descent-count-beyond-length-6', mk(6, 1, 8)), ('climb-count-beyond-length-6', mk(6, 9, 0)),
+            ('negative-climb-count-6', mk(6, -2, 1)), ('negative-descent-count-6', mk(6, 1, -3)),
+            ('both-counts-beyond-length-6', mk(6, 7, 13))]
 
 
 def shape_cases(rng):
@@ -337,34 +344,94 @@ def emissions_to_dict(e):
             'total_fuel': float(e.total_fuel_burn), 'lifecycle': float(e.lifecycle_co2)}
 
 
-def run_impl(case, idx=0, real_container=False, session=False):
+class Objects:
+    """The caller's objects.  The same input (same JSON) gets the SAME Python object on every call of a session, as
+    a caller processing many flights would pass it — so that in-place mutation of the caller's performance model /
+    fuel / trajectory, or results aliasing them, shows up in later calls."""
+
+    def __init__(self):
+        self.pm, self.fuel, self.traj = {}, {}, {}
+
+    def get(self, case, idx, real_container=False):
+        from AEIC.types import Fuel
+        kp = json.dumps([case['lto'], case['apu'], case['class'], str(idx)], sort_keys=True)
+        if kp not in self.pm:
+            self.pm[kp] = SynthPM(case, idx)
+        kf = json.dumps(case['fuel'], sort_keys=True)
+        if kf not in self.fuel:
+            self.fuel[kf] = Fuel.model_validate(case['fuel'])
+        kt = json.dumps([case['traj'], real_container], sort_keys=True)
+        if kt not in self.traj:
+            self.traj[kt] = real_trajectory(case['traj']) if real_container else SynthTrajectory(case['traj'])
+        return self.pm[kp], self.fuel[kf], self.traj[kt]
+
+
+def inputs_changed(case, pm, fuel, traj):
+    """None if the caller's objects still hold exactly the case's data, else what changed"""
+    from AEIC.performance.types import ThrustMode
+    t = case['traj']
+    for name, want in (('fuel_mass', t['fuel_mass']), ('fuel_flow', t['fuel_flow']), ('altitude', t['altitude']),
+                       ('true_airspeed', t['tas'])):
+        got = [float(z) for z in getattr(traj, name)]
+        if got != [float(z) for z in want]:
+            return f'trajectory.{name} was modified in place'
+    if int(traj.n_climb) != t['n_climb'] or int(traj.n_descent) != t['n_descent']:
+        return 'trajectory phase counts were modified'
+    lt = case['lto']
+    tm = lambda v: [float(v[m]) for m in ThrustMode]  # noqa: E731
+    for name, obj, want in (('lto.fuel_flow', pm.lto.fuel_flow, lt['fuel_flow']), ('lto.EI_NOx', pm.lto.EI_NOx, lt['EI_NOx']),
+                            ('lto.EI_HC', pm.lto.EI_HC, lt['EI_HC']), ('lto.EI_CO', pm.lto.EI_CO, lt['EI_CO']),
+                            ('edb.SN_matrix', pm.edb.SN_matrix, lt['SN']), ('edb.fuel_flow', pm.edb.fuel_flow, lt['fuel_flow']),
+                            ('edb.nvPM_mass_matrix', pm.edb.nvPM_mass_matrix, lt['nvPM_mass'])):
+        if tm(obj) != [float(z) for z in want]:
+            return f'performance model {name} was modified in place'
+    a = case['apu']
+    if a is not None and a['kind'] != 'unknown':
+        for k in ('fuel_kg_per_s', 'NOx_g_per_kg', 'CO_g_per_kg', 'HC_g_per_kg', 'PM10_g_per_kg'):
+            if float(getattr(pm.apu, k)) != float(a[k]):
+                return f'APU {k} was modified'
+    for k, v in case['fuel'].items():
+        if getattr(fuel, k) != v:
+            return f'fuel.{k} was modified'
+    return None
+
+
+def run_impl(case, idx=0, real_container=False, session=False, objects=None, keep=None, reload=False):
     """compute_emissions on the case -> {'value': {...}} or {'error': type, 'msg': str, 'key': ...}
     idx: int (a fresh engine identity V<idx>) or str (the engine identity itself: calls that pass the same string
     present the same engine / LTO source + UID to the code, as successive flights of one aircraft type do).
-    session: keep the Config singleton loaded afterwards (and reuse it if the configuration is unchanged)."""
+    session: keep the Config singleton loaded afterwards (and reuse it if the configuration is unchanged, unless
+    reload).  objects: an `Objects` cache (same input -> same Python object).  keep: list collecting the returned
+    Emissions objects (to look at them again after later calls)."""
     import contextlib
     import io
 
     from AEIC.emissions import compute_emissions
-    from AEIC.types import Fuel
+    e = None
+    pm = fuel = traj = None
     try:
-        load_config(case['cfg'], reuse=session)
-        pm = SynthPM(case, idx)
-        fuel = Fuel.model_validate(case['fuel'])
-        traj = real_trajectory(case['traj']) if real_container else SynthTrajectory(case['traj'])
+        load_config(case['cfg'], reuse=session and not reload)
+        pm, fuel, traj = (objects or Objects()).get(case, idx, real_container)
         with warnings.catch_warnings():
             warnings.simplefilter('ignore')
             with contextlib.redirect_stdout(io.StringIO()):          # compute_EI_NOx prints for P3T3
                 e = compute_emissions(pm, fuel, traj)
-        return {'value': emissions_to_dict(e)}
+        r = {'value': emissions_to_dict(e)}
     except Exception as ex:  # noqa: BLE001
         key = None
         if isinstance(ex, KeyError) and ex.args:
             key = getattr(ex.args[0], 'name', str(ex.args[0]))
-        return {'error': type(ex).__name__, 'msg': str(ex), 'key': key}
+        r = {'error': type(ex).__name__, 'msg': str(ex), 'key': key}
     finally:
         if not session:
             reset_config()
+    if pm is not None:
+        ch = inputs_changed(case, pm, fuel, traj)
+        if ch:
+            r['inputs_changed'] = ch
+    if keep is not None:
+        keep.append(e)
+    return r
 
 
 # ---------------------------------------------------------------------------
@@ -413,16 +480,26 @@ def gen_history(rng):
             v['cfg'] = {**base['cfg'], opt: rng.choice(vals)}
         variants.append(v)
     pattern = rng.choice(PATTERNS)
-    return {'vary': what, 'pattern': pattern, 'steps': [variants[k] for k in pattern],
-            'engine': [f'-lto{k}' if what == 'lto' else '' for k in pattern]}
+    same_uid = what == 'lto' and rng.random() < 0.4          # a re-measured engine: same UID, other data
+    return {'vary': what + ('-same-uid' if same_uid else ''), 'pattern': pattern, 'steps': [variants[k] for k in pattern],
+            'engine': [f'-lto{k}' if what == 'lto' and not same_uid else '' for k in pattern],
+            'reload': rng.random() < 0.3}
 
 
 def run_history(hist, hid):
-    """all steps in this process, one after the other; Config reloaded only when the configuration changes"""
-    out = []
+    """all steps in this process, one after the other, with the caller's objects reused; the Config singleton is
+    reloaded only when the configuration changes (or on every call if hist['reload']).  Afterwards every returned
+    Emissions object is converted AGAIN: an earlier result must not have been changed by a later call."""
+    out, keep, objs = [], [], Objects()
     try:
         for step, eng in zip(hist['steps'], hist['engine']):
-            out.append(run_impl(step, f'H{hid}{eng}', session=True))
+            out.append(run_impl(step, f'H{hid}{eng}', session=True, objects=objs, keep=keep,
+                                reload=bool(hist.get('reload'))))
+        for r, e in zip(out, keep):
+            if e is not None and 'value' in r:
+                late = emissions_to_dict(e)
+                if json.dumps(late, sort_keys=True) != json.dumps(r['value'], sort_keys=True):
+                    r['late'] = late
     finally:
         reset_config()
     return out
@@ -443,8 +520,11 @@ def lto_modes_counted(cfg):
 
 
 def window(cfg, n, ncl, nde):
+    """the accounted points: everything under trajectory accounting; under lto accounting the points that Python's
+    own slice [n_climb : n - n_descent] selects from a sequence of n (negative / oversized counts included)"""
     if cfg['climb_descent_mode'] == 'lto':
-        return ncl, n - nde
+        start, stop, _ = slice(ncl, n - nde).indices(n)
+        return start, stop
     return 0, n
 
 
@@ -626,8 +706,24 @@ def coq_tm(xs):
     return '(' + ', '.join(fl(x) for x in xs) + ')'
 
 
-TRAJ_VAR = ['HC', 'CO', 'NOx', 'NO', 'NO2', 'HONO', 'PMnvol', 'PMnvolGMD', 'PMvol', 'OCic', 'PMnvolN']
+TRAJ_VAR = ['HC', 'CO', 'NOx', 'PMnvol', 'PMnvolGMD', 'PMvol', 'OCic', 'PMnvolN']   # NO, NO2, HONO: built by the model
 LTO_VAR = ['PMvol', 'OCic', 'PMnvol']
+
+
+def sls_oracle(case):
+    """SLS-equivalent fuel flow per point (Fuel Flow Method 2, an EI-method quantity: property C12) as the code
+    computes it: emissions/types.py:AtmosphericState + emissions/utils.py:get_SLS_equivalent_fuel_flow"""
+    import numpy as np
+
+    from AEIC.emissions.types import AtmosphericState
+    from AEIC.emissions.utils import get_SLS_equivalent_fuel_flow
+    t = case['traj']
+    with warnings.catch_warnings():
+        warnings.simplefilter('ignore')
+        st = AtmosphericState(np.array(t['altitude'], dtype=float), np.array(t['tas'], dtype=float))
+        sls = get_SLS_equivalent_fuel_flow(fuel_flow=np.array(t['fuel_flow'], dtype=float), Pamb=st.pressure,
+                                           Tamb=st.temperature, mach_number=st.mach, n_eng=case['lto']['n_eng'])
+    return [float(z) for z in sls]
 
 
 def coq_inputs(case, v):
@@ -642,7 +738,8 @@ def coq_inputs(case, v):
     apu = 'None' if a is None else (f"(Some (@mkApu FNum {fl(a['fuel_kg_per_s'])} {fl(a['NOx_g_per_kg'])} "
                                     f"{fl(a['CO_g_per_kg'])} {fl(a['HC_g_per_kg'])} {fl(a['PM10_g_per_kg'])}))")
     return (f"@run_case FNum (@mkInputs FNum {coq_config(case['cfg'])} {fuel} {coq_list(t['fuel_mass'])} "
-            f"{t['n_climb']}%nat {t['n_descent']}%nat {orc_t} {lto} {orc_l} {apu} {AC[case['class']]})")
+            f"({t['n_climb']})%Z ({t['n_descent']})%Z {orc_t} {coq_list(sls_oracle(case))} {lto} {orc_l} {apu} "
+            f"{AC[case['class']]})")
 
 
 def model_to_dict(m):
@@ -914,6 +1011,18 @@ def check_cases(chk: Check, cases, state: dict, real_every: int = 7, impl=None, 
             continue
         chk.count('outcome:value')
         v = r['value']
+        if r.get('inputs_changed'):
+            chk.broken('purity:compute_emissions modified its arguments', r['inputs_changed'] + where_in_history(labels[i]),
+                       payload(c, labels[i]))
+        if 'late' in r:
+            bad_late = oracle(c, r['late'])
+            msg = 'the inventory returned by an earlier call was changed by a later call' + where_in_history(labels[i])
+            if bad_late:
+                chk.fail(msg + f' — it is no longer balanced: {bad_late[0][0]}: {bad_late[0][1]}',
+                         payload(c, labels[i], violations=bad_late[:6]), signature=None)
+            else:
+                chk.broken('purity:earlier result changed by a later call', msg, payload(c, labels[i]))
+            continue
         bad = oracle(c, v)
         if bad:
             clause, detail = bad[0]
@@ -960,11 +1069,12 @@ def run(chk: Check):
                     'harness/c01.py: correspondence (rel 1e-9) and the fsum re-summation oracle',
                     'real-number theorems vs binary64 execution: gap covered by the correspondence tolerance and the '
                     'finiteness / non-negativity checks on the implementation only',
-                    'the emission-index methods (BFFM2, HC/CO, PMvol, PMnvol) are an opaque oracle here (property C12)']
-    chk.assumptions += ['0 <= n_climb, 0 <= n_descent <= len(trajectory) (no negative slice bounds)',
+                    'the emission-index methods (BFFM2 NOx value, FFM2 SLS fuel flow, HC/CO, PMvol, PMnvol) are an opaque oracle here '
+                    '(property C12); the NO/NO2/HONO speciation by thrust category is modelled']
+    chk.assumptions += ['phase counts are integers (any sign / size: Python slice semantics are modelled)',
                         'fuel mass non-increasing along the trajectory (non-negativity clause)',
-                        'trajectory NO/NO2/HONO indices close pointwise to NOx (hypothesis of the theorem; checked on '
-                        'the implementation by the oracle)']
+                        'the NOx array and the SLS-equivalent fuel flows of the EI method have one entry per point '
+                        '(oracle_lengths); NO/NO2/HONO are built by the model from them']
     chk.coq_props('props/C01_Props.v')
     extract(chk)
     extracted_vs_python(chk)
